@@ -239,8 +239,13 @@ package spdxexp
 //@ pred skipTo(o string, g int) = g + runLen(o[g:], "space")
 //@ def[2] posK(o string, k int) int = ite(k <= 0, 0, ite(pendK(o, k - 1), posK(o, k - 1), stepNext(o, skipTo(o, posK(o, k - 1)))))
 //@ def[2] pendK(o string, k int) bool = ite(k <= 0, false, ite(pendK(o, k - 1), false, stepPend(o, skipTo(o, posK(o, k - 1)))))
-//@ pred tokRoleK(o string, k int) = ite(pendK(o, k), 0, stepRole(o, skipTo(o, posK(o, k))))
-//@ pred tokValK(o string, k int) = ite(pendK(o, k), "+", stepVal(o, skipTo(o, posK(o, k))))
+// (tokRoleK / tokValK are opaque names; their definitions are given only to the obligations of the group grp=lex, where a
+// token is compared with one step of the reference lexer.  The obligations about the token ARRAY - grp=toks - and every
+// other function see uninterpreted terms, no string expression.)
+//@ fn tokRoleK(o string, k int) int
+//@ fn tokValK(o string, k int) string
+//@ axiom[C05,scoped,grp=lex] forall o string, k int {tokRoleK(o, k)} :: tokRoleK(o, k) == ite(pendK(o, k), 0, stepRole(o, skipTo(o, posK(o, k))))
+//@ axiom[C05,scoped,grp=lex] forall o string, k int {tokValK(o, k)} :: tokValK(o, k) == ite(pendK(o, k), "+", stepVal(o, skipTo(o, posK(o, k))))
 //@ pred endK(o string, k int) = !pendK(o, k) && skipTo(o, posK(o, k)) >= len(o)
 //@ pred errK(o string, k int) = !pendK(o, k) && skipTo(o, posK(o, k)) < len(o) && stepErr(o, skipTo(o, posK(o, k)), runLen(o[posK(o, k):], "space") > 0)
 // noStopBefore(o, k): none of the tokens 0..k-1 is an end or an error (the reference lexer really produces k tokens)
@@ -266,8 +271,9 @@ package spdxexp
 //@     invariant[C05,C15,C07,C10] rel(exp, orig) && !isErr(exp.err)
 //@     invariant[C06,C07] okToks(tokens)
 //@     invariant[C05,scoped,grp=lex] lexState(exp, orig, len(tokens)) && !spaceBefore(exp)
-//@     invariant[C05,scoped,grp=toks] forall j :: 0 <= j && j < len(tokens) ==> tokens[j].role == tokRoleK(orig, j) && tokens[j].value == tokValK(orig, j)
+//@     invariant[C05,scoped,grp=toks] forall j {tokens[j]} :: 0 <= j && j < len(tokens) ==> tokens[j].role == tokRoleK(orig, j) && tokens[j].value == tokValK(orig, j)
 //@     invariant[C05,scoped,grp=lex] noStopBefore(orig, len(tokens))
+//@   assert[C05,grp=toks] after append#0: prefixKept: forall j {ret[j]} :: 0 <= j && j < len(tokens) ==> ret[j].role == tokens[j].role && ret[j].value == tokens[j].value
 //@   assert[C05,grp=lex] after append#0: lastTok: len(ret) == len(tokens) + 1 && ret[len(tokens)].role == tokRoleK(orig, len(tokens)) && ret[len(tokens)].value == tokValK(orig, len(tokens))
 //@   assert[C05,scoped,grp=lex] after (*expressionStream).skipWhitespace#0: skipPend: pendK(orig, len(tokens)) ==> pend(exp, orig) && exp.index + exp.removed + 1 == posK(orig, len(tokens)) && !spaceBefore(exp)
 //@   assert[C05,scoped,grp=lex] after (*expressionStream).skipWhitespace#0: skipSync: !pendK(orig, len(tokens)) ==> syncd(exp, orig) && exp.index + exp.removed == skipTo(orig, posK(orig, len(tokens)))
